@@ -11,14 +11,15 @@ Open Scope Z_scope.
 
 (* what the constructor has established: the ELFFile attributes later code reads *)
 Record elfctx : Type := mkctx {
-  x_bs : list Z;          (* the stream contents; stream_len = zlen x_bs *)
+  x_bs : list Z;          (* the stream contents *)
+  x_len : Z;              (* self.stream_len = len(contents), computed once *)
   x_legacy : bool;
   x_is64 : bool;          (* self.elfclass == 64 *)
   x_le : bool;            (* self.little_endian *)
   x_hdr : record          (* self.header *)
 }.
 Definition hz (x : elfctx) (f : string) : Z := rec_z (x_hdr x) f.
-Definition stream_len (x : elfctx) : Z := zlen (x_bs x).
+Definition stream_len (x : elfctx) : Z := x_len x.
 
 Definition binds_Ehdr (is64 : bool) := if is64 then gen_binds_Elf_Ehdr_64 else gen_binds_Elf_Ehdr_32.
 Definition binds_Shdr (is64 : bool) := if is64 then gen_binds_Elf_Shdr_64 else gen_binds_Elf_Shdr_32.
@@ -125,7 +126,7 @@ Definition ctor (legacy : bool) (bs : list Z) : M elffile :=
   dom cl <- identify_file bs;
   let is64 := fst cl in let le := snd cl in
   dom hdr <- struct_parse_at legacy (gen_Elf_Ehdr le is64) (binds_Ehdr is64) bs 0;
-  let x := mkctx bs legacy is64 le hdr in
+  let x := mkctx bs (blen bs) legacy is64 le hdr in
   dom e_ident_raw <- raw_read bs 0 16;
   dom n <- get_shstrndx x;
   dom oh <- get_section_header x n;
